@@ -107,6 +107,7 @@ type Obligation struct {
 	Output   string
 	Static   bool // decided without the solver (trivially true condition)
 	FailNote string
+	Second   string // thorough tier: what independent back ends said about the stand-alone query
 }
 
 type item struct {
@@ -117,6 +118,7 @@ type item struct {
 
 type run struct {
 	curCall *ssa.CallCommon
+	dynCalls []DynCall
 	eng      *Engine
 	root     *ssa.Function
 	rootName string
